@@ -116,6 +116,46 @@ def gen():
     print(len(muts), "mutants", dict(collections.Counter(m["file"] for m in muts)))
 
 
+SIMPLE_STMT = re.compile(r"^(\s*)(?!let |return|break|continue|//|\}|\{|#)[A-Za-z_].*;\s*$")
+SWAP_STMT = re.compile(r"^(\s*)(?!return|break|continue|//|\}|\{|#)[A-Za-z_].*;\s*$")
+
+
+def gen2():
+    """Second set: statement-level edits — swap two adjacent one-line statements, duplicate a
+    one-line statement, drop a leading `!`, reverse an iterator, shift an enumerate index."""
+    muts = []
+    for f in FILES:
+        lines = open(os.path.join("/repo", f)).read().split("\n")
+        end = test_region_start(lines)
+        for i, l in enumerate(lines[:end]):
+            code = l.split("//")[0]
+            m1 = SIMPLE_STMT.match(code)
+            bal = code.count("(") == code.count(")") and code.count("{") == code.count("}")
+            if m1 and bal:
+                muts.append({"file": f, "line": i + 1, "op": "dup-stmt", "before": l, "after": l + "\n" + l})
+            m1 = SWAP_STMT.match(code)
+            if m1 and bal:
+                if i + 1 < end:
+                    n = lines[i + 1].split("//")[0]
+                    m2 = SWAP_STMT.match(n)
+                    if m2 and m2.group(1) == m1.group(1) and n.count("(") == n.count(")") and n.count("{") == n.count("}"):
+                        muts.append({"file": f, "line": i + 1, "op": "swap-adjacent", "before": l, "after": lines[i + 1],
+                                     "span": 2, "after_all": [lines[i + 1], l]})
+            for m in re.finditer(r"(?<=[ (])!(?=[a-z_(])", code):
+                muts.append({"file": f, "line": i + 1, "op": "drop-not", "before": l, "after": code[:m.start()] + code[m.end():]})
+            for m in re.finditer(r"\.iter\(\)(?!\.rev)", code):
+                muts.append({"file": f, "line": i + 1, "op": "iter->rev", "before": l, "after": code[:m.end()] + ".rev()" + code[m.end():]})
+            for m in re.finditer(r"\.enumerate\(\)", code):
+                muts.append({"file": f, "line": i + 1, "op": "enumerate->skip1", "before": l, "after": code[:m.end()] + ".skip(1)" + code[m.end():]})
+            for m in re.finditer(r"\.clone\(\)", code):
+                pass
+    for k, m in enumerate(muts):
+        m["id"] = "n%04d" % k
+    json.dump(muts, open(os.path.join(OUT, "mutants2.json"), "w"), indent=0)
+    import collections
+    print(len(muts), "mutants", dict(collections.Counter(m["op"] for m in muts)))
+
+
 def sh(cmd, cwd=None, timeout=1800, env=None):
     try:
         p = subprocess.run(cmd, shell=True, cwd=cwd, stdout=subprocess.PIPE, stderr=subprocess.STDOUT, text=True,
@@ -160,7 +200,7 @@ def run_one(w, mut, only=None):
     assert lines[mut["line"] - 1] == mut["before"], "source moved"
     lines[mut["line"] - 1] = mut["after"]
     for extra in range(1, mut.get("span", 1)):
-        lines[mut["line"] - 1 + extra] = ""
+        lines[mut["line"] - 1 + extra] = mut["after_all"][extra] if "after_all" in mut else ""
     res = {"id": mut["id"], "file": mut["file"], "line": mut["line"], "op": mut["op"],
            "before": mut["before"].strip(), "after": mut["after"].strip()}
     t0 = time.time()
@@ -192,6 +232,8 @@ def run_one(w, mut, only=None):
 
 def run(jobs, limit, only_ids=None, props=None):
     muts = json.load(open(os.path.join(OUT, "mutants.json")))
+    if os.path.exists(os.path.join(OUT, "mutants2.json")):
+        muts += json.load(open(os.path.join(OUT, "mutants2.json")))
     done = set()
     rp = os.path.join(OUT, "results.jsonl")
     if os.path.exists(rp):
@@ -279,6 +321,8 @@ if __name__ == "__main__":
     a = sys.argv[1:]
     if a[0] == "gen":
         gen()
+    elif a[0] == "gen2":
+        gen2()
     elif a[0] == "run":
         j = int(a[a.index("-j") + 1]) if "-j" in a else 8
         lim = int(a[a.index("--limit") + 1]) if "--limit" in a else 0
